@@ -146,6 +146,8 @@ def tie_resolve(ctx: Ctx, n: int, git: bool = True) -> None:
             args = [a for a in fstree.gen_args(rng, t) if Path(a).exists() or any(c in a for c in "*?[")]
             if not args:
                 continue
+            args, wd = fstree.relativise(rng, t, args)
+            os.chdir(wd)
             try:
                 real = fstree.real_resolve(s, args)
             except Exception as e:
@@ -155,11 +157,12 @@ def tie_resolve(ctx: Ctx, n: int, git: bool = True) -> None:
             if line is None:
                 continue
             lines.append(line)
-            cases.append(({"settings": s, "args": [a.replace(str(t.base), "") for a in args], "tree": listing(t)}, real, str(t.base)))
+            cases.append(({"settings": s, "args": [a.replace(str(t.base), "") for a in args], "cwd": wd.replace(str(t.base), ""), "tree": listing(t)}, real, str(t.base)))
             ctx.count(["resolve", s, len(args)], nontrivial=len(real) > 0)
             for a in args:
                 ctx.bump("arg:" + ("file" if Path(a).is_file() else "dir" if Path(a).is_dir() else "glob"))
         finally:
+            os.chdir("/")
             t.close()
     outs = run_driver(lines, workers=8)
     bad = 0
